@@ -359,7 +359,11 @@ class WARCRecorder(object):
             with open_func(self._warc_filename, mode='ab') as out_file:
                 for data in record:
                     out_file.write(data)
-        except (OSError, IOError) as error:
+        except BaseException as error:
+            # Not only I/O errors: anything that interrupts the append
+            # (KeyboardInterrupt, task cancellation, MemoryError, an error of
+            # the record's data source) leaves a partial record behind while
+            # the ``finally`` clause below removes the journal.
             _logger.info(
                 _('Rolling back file {filename} to length {length}.'),
                 filename=self._warc_filename, length=before_offset
